@@ -147,6 +147,17 @@ func init() {
 		}
 		return nil
 	})
+	// PrintLog: the fmt.Fprintf calls made so far as (format, args) events
+	v("PrintLog", func(ex *Exec, c *frame, fn *ssa.Function, a []Value) Value {
+		arr := &Array{}
+		for _, l := range ex.logs {
+			t := l.(Tuple)
+			args, _ := t[1].(Slice)
+			ev := &Struct{F: []*Cell{{V: t[0]}, {V: args}}}
+			arr.E = append(arr.E, &Cell{V: ev})
+		}
+		return Slice{Arr: arr, Len: len(arr.E), Cap: len(arr.E)}
+	})
 	v("NoOrderLemma", func(ex *Exec, c *frame, fn *ssa.Function, a []Value) Value {
 		ex.noOrderLemma = a[0].(bool)
 		return nil
@@ -773,12 +784,7 @@ func (ex *Exec) jsonEqualResolved(a, b Iface, fr *frame) Value {
 // ---- fmt.Fprintf event recorder (C20) ----
 
 func hFprintf(ex *Exec, c *frame, fn *ssa.Function, a []Value) Value {
-	// a[0] writer (interface), a[1] format, a[2] args slice
-	w := ex.forceIface(a[0])
-	if op, ok := w.V.(*Opaque); ok && op.Kind == "recorder" {
-		ev := &Struct{F: []*Cell{{V: a[1]}, {V: a[2]}}}
-		_ = ev
-		ex.logs = append(ex.logs, Tuple{a[1], a[2]})
-	}
+	// a[0] writer (interface), a[1] format, a[2] args slice: recorded as a structured event
+	ex.logs = append(ex.logs, Tuple{a[1], a[2]})
 	return Tuple{int64(0), Iface{}}
 }
